@@ -199,7 +199,8 @@ Definition related (fuel : nat) (sch : aschema) (frags : list fragdef) (cn T : s
 Record cls := { c_name : string; c_type : string; c_bases : list string;
                 c_frags : list string;      (* fragments the resolver returned as bases of this class *)
                 c_direct : list string;     (* fragments spread directly and unconditionally in its selection set *)
-                c_bfrags : list string }.   (* those of c_frags actually listed as bases *)
+                c_bfrags : list string;     (* those of c_frags actually listed as bases *)
+                c_direct_at : list (string * string) }.  (* direct_at: also inside applicable inline fragments *)
 
 Record st := { st_public : list string; st_mix : list string; st_unp : list string;
                st_imports : list mixin_dir }.
@@ -229,6 +230,22 @@ Definition reduced (g : graph) (mix : list string) : list string :=
 
 Definition class_bases (g : graph) (mix : list string) (extra : list string) : list string :=
   ((match mix with [] => [base_model] | _ => map pascal_s (sort_uniq (reduced g mix)) end) ++ extra)%list.
+
+(* (fragment, type its spread is evaluated for): unconditional spreads at the top level of a selection set
+   evaluated for `root`, and inside unconditional inline fragments whose type condition applies (the inline
+   fragment's selection set is evaluated for inline_root, e.g. the interface named by the condition) *)
+Fixpoint direct_in (sch : aschema) (root : string) (s : sel) : list (string * string) :=
+  match s with
+  | SSpread fn false => [(fn, root)]
+  | SInline tc false sub =>
+      match inline_root sch tc root with
+      | Some rt => flat_map (direct_in sch rt) sub
+      | None => []
+      end
+  | _ => []
+  end.
+Definition direct_at (sch : aschema) (root : string) (ss : list sel) : list (string * string) :=
+  flat_map (direct_in sch root) ss.
 
 (* fragments spread directly and UNCONDITIONALLY in a selection set *)
 Definition direct_spreads (ss : list sel) : list string :=
@@ -311,7 +328,7 @@ Fixpoint ptd (fuel : nat) (sch : aschema) (frags : list fragdef) (g : graph) (sn
                          st_unp := unp'; st_imports := st_imports s |} in
             let me := {| c_name := cn; c_type := tn; c_bases := class_bases g mix extra;
                          c_frags := sort_uniq mix; c_direct := direct_spreads ss;
-                         c_bfrags := sort_uniq (reduced g mix) |} in
+                         c_bfrags := sort_uniq (reduced g mix); c_direct_at := direct_at sch tn ss |} in
             match go_fields (ptd f sch frags g snake) f sch frags snake cn tn fields s1 with
             | None => None
             | Some (extras, s2) => Some (me :: extras, s2)
@@ -553,7 +570,8 @@ Definition dTable (e : sexp) : option (list (string * list string)) :=
   dList (fun x => match x with L [A n; l] => option_map (pair n) (dStrs l) | _ => None end) e.
 
 Definition sCls (c : cls) : sexp :=
-  L [A (c_name c); A (c_type c); sStrs (c_bases c); sStrs (c_frags c); sStrs (c_direct c); sStrs (c_bfrags c)].
+  L [A (c_name c); A (c_type c); sStrs (c_bases c); sStrs (c_frags c); sStrs (c_direct c); sStrs (c_bfrags c);
+     L (map (fun p => L [A (fst p); A (snd p)]) (c_direct_at c))].
 Definition sPairs (l : list mixin_dir) : sexp := L (map (fun p => L [A (fst p); A (snd p)]) l).
 Definition sTable (t : list (string * list string)) : sexp := L (map (fun p => L [A (fst p); sStrs (snd p)]) t).
 
